@@ -131,7 +131,99 @@ def c03(tier, seed):
     return out
 
 
+# ------------------------------------------------------------------------------------------------
+# C11
+# ------------------------------------------------------------------------------------------------
+
+def c11(tier, seed):
+    out = []
+    quick_dyn = sorted(set([0, 3, 6, 7, 8] + [[1, 2, 4, 5][seed % 4]]))
+    for kind in ("s", "d"):
+        for n in range(0, 13):
+            q = (n <= 8) if kind == "s" else (n in quick_dyn)
+            fam = fam_name(kind, n)
+            u = max(T(n), n, 7) + 2   # COUNT_MASKS has 7 entries
+            tname = "LutN" if kind == "s" else "Lut"
+            for macro, op in (("c11_consts", "consts"), ("c11_nth_var", "nth_var"), ("c11_symmetric", "symmetric"),
+                              ("c11_equals", "equals"), ("c11_threshold", "threshold"),
+                              ("c11_parity_majority", "parity_majority")):
+                if op == "nth_var" and n < 1:
+                    continue
+                covers = {"reached": "SATISFIED"}
+                if op == "nth_var":
+                    covers["in-word index"] = "SATISFIED"
+                    covers["cross-word index"] = "SATISFIED" if n >= 7 else "UNSAT"
+                if op == "symmetric":
+                    covers["assignment in a high word"] = "SATISFIED" if n >= 7 else "UNSAT"
+                if op == "equals":
+                    for c in ("k = n+1", "k = 63", "k = 64", "k = 65", "k = usize::MAX", "k in range"):
+                        covers[c] = "SATISFIED"
+                if op == "threshold":
+                    for c in ("k = 0", "k = n+1", "k = 64", "k = usize::MAX"):
+                        covers[c] = "SATISFIED"
+                    covers["k in range"] = "SATISFIED" if n >= 1 else "UNSAT"
+                out.append(spec("verif_c11", "c11.rs", macro, "c11_%s_%s" % (op, fam), [fam], u,
+                                tier="quick" if q else "thorough", n=n, fam=fam,
+                                mem=mem_for(n), timeout=900 if n <= 8 else 3000,
+                                covers=covers,
+                                what="%s on %s n=%d: symbolic assignment m, parameter (k / c / i) over ALL usize values; value(m) equals the definition via popcount(m); wf"
+                                     % (op, tname, n)))
+    return out
+
+
+# ------------------------------------------------------------------------------------------------
+# C08
+# ------------------------------------------------------------------------------------------------
+
+def c08(tier, seed):
+    out = []
+    quick_dyn = sorted(set([0, 3, 6, 7, 8] + [[1, 2, 4, 5][seed % 4]]))
+    for kind in ("s", "d"):
+        tname = "LutN" if kind == "s" else "Lut"
+        for n in range(0, 13):
+            q = (n <= 8) if kind == "s" else (n in quick_dyn)
+            fam = fam_name(kind, n)
+            u = 8 * T(n) + 2  # derived == on slices compares bytes
+            out.append(spec("verif_c08", "c08.rs", "c08_cmp", "c08_cmp_%s" % fam, [fam], u,
+                            tier="quick" if q else "thorough", n=n, fam=fam, mem=mem_for(n),
+                            timeout=900 if n <= 8 else 3000,
+                            covers={"reached": "SATISFIED", "less": "SATISFIED", "equal": "SATISFIED"},
+                            what="cmp on %s n=%d: symbolic a, b; cmp == most-significant-word-first numeric comparison; agrees with ==, <, >, partial_cmp; highest differing assignment decides" % (tname, n)))
+            out.append(spec("verif_c08", "c08.rs", "c08_trans", "c08_trans_%s" % fam, [fam], u,
+                            tier="quick" if q else "thorough", n=n, fam=fam, mem=mem_for(n),
+                            timeout=900 if n <= 8 else 3000,
+                            covers={"reached": "SATISFIED", "strict chain": "SATISFIED" if n >= 1 else "UNSAT"},
+                            what="order on %s n=%d: symbolic triple; transitivity and antisymmetry" % (tname, n)))
+            if n <= 3:
+                total = 1 << (1 << n)
+                out.append(spec("verif_c08", "c08.rs", "c08_iter_full", "c08_iter_full_%s" % fam, [fam], total + 3,
+                                tier="quick" if n <= 2 else "thorough", n=n, fam=fam, mem=2 if n == 3 else 1,
+                                timeout=2400,
+                                what="all_functions on %s n=%d: complete run, item k is the number k for k = 0..2^(2^n)-1, then None, None" % (tname, n)))
+            else:
+                if n <= 9:
+                    out.append(spec("verif_c08", "c08.rs", "c08_iter_first", "c08_iter_first_%s" % fam, [fam], T(n) + 2,
+                                    tier="quick" if q else "thorough", n=n, fam=fam, mem=mem_for(n),
+                                    what="all_functions on %s n=%d: first three items are 0, 1, 2" % (tname, n)))
+    pairs = [(0, 1), (1, 2), (2, 3), (5, 6), (6, 7), (7, 6), (7, 8), (8, 3), (3, 9), (10, 9), (11, 12), (12, 0)]
+    for (a, b) in pairs:
+        q = max(a, b) <= 8
+        out.append(spec("verif_c08", "c08.rs", "c08_diffn", "c08_diffn_d%d_d%d" % (a, b), ["d%d" % a, "d%d" % b],
+                        8 * max(T(a), T(b)) + 2, tier="quick" if q else "thorough", n=max(a, b), fam="d%d,d%d" % (a, b),
+                        mem=mem_for(max(a, b)),
+                        what="Lut of %d vs %d variables: ordered by number of variables first, never equal" % (a, b)))
+    # kernel lemma: successor from an arbitrary table
+    for n in range(0, 13):
+        out.append(spec("verif_k08", "k08.rs", "k08_next", "k08_next_%d" % n, [n, T(n)], T(n) + 2,
+                        tier="quick" if n <= 9 else "thorough", n=n, fam="kernel", level="kernel", mem=mem_for(n),
+                        covers={"reached": "SATISFIED", "low word all ones": "SATISFIED", "wrapped to zero": "SATISFIED"},
+                        what="operations::next_inplace n=%d from an ARBITRARY well-formed table: result == table + 1 mod 2^(2^n) (multi-word carry), return value == (result != 0), no check fires" % n))
+    return out
+
+
 PROPS = {
+    "C08": c08,
+    "C11": c11,
     "C01": c01,
     "C03": c03,
 }
